@@ -390,3 +390,62 @@ def ivec_marginal_ll(stats, T, sigma, ubm_mu):
         sign, logdet = np.linalg.slogdet(L)
         tot += 0.5 * float(b @ w) - 0.5 * logdet
     return tot
+
+
+# ----------------------------------------------------------------------------
+# EM trajectories (reference E-step + reference M-step, iterated)
+
+
+def ml_trajectory(X, init, upd, K, count_floor, var_floor):
+    """models[0..K], L[1..K] (L[k] = mean log-lik of models[k-1]), active[k] = a floor touched step k."""
+    w, mu, var = (np.array(a, float) for a in init)
+    models = [(w, mu, var)]
+    L = [None]
+    active = [False]
+    t = np.atleast_2d(X).shape[0]
+    for _ in range(K):
+        s = gmm_stats(X, w, mu, var)
+        L.append(s["log_likelihood"] / t)
+        w2, mu2, var2 = ml_mstep(s["n"], s["sum_px"], s["sum_pxx"], t, w, mu, var,
+                                 upd[0], upd[1], upd[2], count_floor, var_floor)
+        act = bool((s["n"] < 100 * count_floor).any())
+        if upd[1]:
+            raw = (s["sum_pxx"] - 2 * mu2 * s["sum_px"] + np.maximum(s["n"], count_floor)[:, None] * mu2 * mu2) \
+                / np.maximum(s["n"], count_floor)[:, None]
+            act = act or bool((raw <= np.asarray(var_floor) * (1 + 1e-6)).any())
+        active.append(act)
+        w, mu, var = w2, mu2, var2
+        models.append((w, mu, var))
+    return models, L, active
+
+
+def map_trajectory(X, prior, upd, K, relevance, alpha_fixed, count_floor, var_floor):
+    w, mu, var = (np.array(a, float) for a in prior)
+    models = [(w, mu, var)]
+    L = [None]
+    t = np.atleast_2d(X).shape[0]
+    for _ in range(K):
+        s = gmm_stats(X, w, mu, var)
+        L.append(s["log_likelihood"] / t)
+        w, mu, var = map_mstep(s["n"], s["sum_px"], s["sum_pxx"], t, prior, (w, mu, var),
+                               upd[0], upd[1], upd[2], relevance, alpha_fixed, count_floor, var_floor)
+        models.append((w, mu, var))
+    return models, L
+
+
+def stop_iteration(L, thr, cap):
+    """First k>=2 with |L[k-1]-L[k]|/|L[k-1]| <= thr, else cap; also the closest call to the threshold."""
+    K = len(L) - 1
+    closest = np.inf
+    for k in range(2, K + 1):
+        if cap is not None and k > cap:
+            break
+        conv = abs((L[k - 1] - L[k]) / L[k - 1]) if L[k - 1] != 0 else np.inf
+        if thr is not None:
+            if thr > 0:
+                closest = min(closest, abs(conv - thr) / thr)
+            else:
+                closest = min(closest, np.inf if conv == 0 else conv)
+            if conv <= thr:
+                return k, closest
+    return (cap if cap is not None else None), closest
